@@ -43,9 +43,10 @@ type variant struct {
 
 type variantResult struct {
 	variant
-	Loads bool     `json:"loads"`
-	Fired []string `json:"fired"`
-	Keys  []string `json:"keys,omitempty"`
+	Loads     bool     `json:"loads"`
+	Fired     []string `json:"fired"`
+	Keys      []string `json:"keys,omitempty"`
+	TestsPass *bool    `json:"passes_smoke_tests,omitempty"`
 }
 
 func cmdSweep(args []string) int {
@@ -59,6 +60,7 @@ func cmdSweep(args []string) int {
 	only := fs.String("only", "", "substring filter on file path")
 	stride := fs.Int("stride", 1, "take every n-th variant")
 	opsF := fs.String("ops", "", "comma-separated operator names to run (default all)")
+	smoke := fs.Bool("smoke", false, "fault mode: run the repository's own quick tests (go test -overlay) on every variant no rule notices, to separate test-killable faults from survivors")
 	fs.Parse(args)
 	vs, srcs, err := genVariants(*repo, *mode)
 	if err != nil {
@@ -119,6 +121,37 @@ func cmdSweep(args []string) int {
 		}(i, v)
 	}
 	wg.Wait()
+	if *smoke && *mode == "fault" {
+		var wg2 sync.WaitGroup
+		sem2 := make(chan struct{}, *jobs)
+		for i := range res {
+			if !res[i].Loads || len(res[i].Fired) > 0 {
+				continue
+			}
+			wg2.Add(1)
+			go func(i int) {
+				defer wg2.Done()
+				sem2 <- struct{}{}
+				defer func() { <-sem2 }()
+				v := res[i].variant
+				src := srcs[v.File]
+				mut := append(append(append([]byte{}, src[:v.s]...), v.New...), src[v.e:]...)
+				ok := smokeTest(*repo, tmp, v, mut)
+				res[i].TestsPass = &ok
+			}(i)
+		}
+		wg2.Wait()
+		n, pass := 0, 0
+		for _, r := range res {
+			if r.TestsPass != nil {
+				n++
+				if *r.TestsPass {
+					pass++
+				}
+			}
+		}
+		fmt.Printf("smoke tests on %d unnoticed variants: %d still pass the repository's quick tests (true survivors), %d are killed by them\n", n, pass, n-pass)
+	}
 	loads, silent := 0, 0
 	byOp := map[string][3]int{} // total, loads, alarmed
 	for _, r := range res {
@@ -764,4 +797,30 @@ func trunc(s string, n int) string {
 		return s[:n] + "…"
 	}
 	return s
+}
+
+// smokeTest runs the repository's own fast tests on one variant through `go test -overlay`
+// (no copy of the repository is made): seat_manager and open_game_manager variants run their
+// package's tests; everything else runs the actor package's basic end-to-end test.
+func smokeTest(repo, tmp string, v variant, mut []byte) bool {
+	mf := filepath.Join(tmp, fmt.Sprintf("smoke-%d.go", v.ID))
+	of := filepath.Join(tmp, fmt.Sprintf("smoke-%d.json", v.ID))
+	os.WriteFile(mf, mut, 0o644)
+	defer os.Remove(mf)
+	defer os.Remove(of)
+	ob, _ := json.Marshal(map[string]interface{}{"Replace": map[string]string{v.File: mf}})
+	os.WriteFile(of, ob, 0o644)
+	args := []string{"test", "-overlay=" + of, "-vet=off", "-count=1", "-timeout", "90s"}
+	switch {
+	case strings.Contains(v.File, "/seat_manager/"):
+		args = append(args, "./seat_manager")
+	case strings.Contains(v.File, "/open_game_manager/"):
+		args = append(args, "./open_game_manager")
+	default:
+		args = append(args, "-run", "TestActor_Basic|TestActor_ObserverRunner_PlayerAct", "./actor")
+	}
+	cmd := exec.Command("go", args...)
+	cmd.Dir = repo
+	cmd.Env = append(os.Environ(), "GOFLAGS=-mod=mod", "GOPROXY=off", "GOSUMDB=off", "GOTOOLCHAIN=local")
+	return cmd.Run() == nil
 }
